@@ -315,6 +315,12 @@ add("C02", "X-selected-member-colour", "fixed",
             Decl("Signal", "s1", Bin(">", BSel(Ref("b1"), "signal-C"), Num(0)))], [{"in1": 0, "in3": 0}, {"in1": 3, "in3": 1}]), commit="bac574a")
 
 
+add("C01", "X-placeholder-signal-name", "fixed",
+    "Signal a = 0; Signal v = (b + 1) | a.type; emitted the placeholder '__v1' as a signal name (and registered it process-wide)",
+    case01([Decl("Signal", "a", Num(0)), S("b", "signal-B", 3), Decl("Signal", "v", Proj(Paren(Bin("+", Ref("b"), Num(1))), TypeOf("a")))],
+           [{"a": 0, "b": 3}, {"a": 2, "b": -5}]), commit="7ccc29a")
+
+
 def main():
     import importlib
 
